@@ -38,3 +38,18 @@ def harvest() -> Dict[str, Tuple[Callable, bool]]:
                 continue
             out[f"{node.value.id}.{node.attr}"] = (fn, "preserve" in params)
     return dict(sorted(out.items()))
+
+
+def harvest_tail():
+    """Names of the rules that format_code itself calls (outside _multi_run_fixes):
+    the single-run head and tail stages (imports, line lengths, naming, ...)."""
+    main_mod = C.import_pyrefact()
+    tree = ast.parse(inspect.getsource(main_mod))
+    names = []
+    for fn in tree.body:
+        if isinstance(fn, ast.FunctionDef) and fn.name == "format_code":
+            for node in ast.walk(fn):
+                if isinstance(node, ast.Attribute) and isinstance(node.value, ast.Name) and node.value.id in _MODULES:
+                    names.append(f"{node.value.id}.{node.attr}")
+    allr = harvest()
+    return [n for n in dict.fromkeys(names) if n in allr]
